@@ -125,6 +125,7 @@ func (eng *Engine) NewFuncProof(fn *ssa.Function, fc *FuncContract, opts ProofOp
 		if cfg, err := parseSimCfg(fc); err == nil && cfg != nil {
 			ex.simVariant = cfg.Variant
 			ex.simLimit = cfg.Limit
+			ex.simFast = cfg.Fast
 		}
 	}
 	fp := &FuncProof{eng: eng, ex: ex, fn: fn, fc: fc, opts: opts,
@@ -500,6 +501,9 @@ func (fp *FuncProof) houdiniPath(pe *PathEnd, phase string) (changed, kChanged b
 		if fp.alive[pe.To][a] {
 			fp.alive[pe.To][a] = false
 			changed = true
+			if td := os.Getenv("RJV_TRACE_DROP"); td != "" && strings.Contains(a.Name, td) {
+				fmt.Printf(";; DROP %s at %s via %s (%s)\n", a.Name, pe.To.Label, fp.tracePath(pe), phase)
+			}
 		}
 		fp.mu.Unlock()
 	}
